@@ -85,7 +85,12 @@ def boundary_class(text, labels, o):
     if a == "a" and b == "a":
         return "inside-token"
     if a == "c" and b in "cn":
-        return "inside-comment"
+        # would the rest of the comment, read as a line of its own, yield a token?
+        e = o
+        while e < len(text) and labels[e] == "c":
+            e += 1
+        tail = text[o:e].strip()
+        return "inside-comment" if tail and not tail.startswith(";") else "inside-comment-blank-tail"
     if text[o - 1] == "\n":
         return "after-newline"
     return "between-tokens"
